@@ -5,7 +5,7 @@ props = {
  "C14": ("DESIGN.md 3 (I2, I1, I8), 4 C14",
    "Seeded histories in which operator/eval/copy results become operands and targets of later edits by other tasks: per-op numpy reference for values, value-copy reference for BCs, fresh-twin reference for ghost values, byte-level frame condition on every other pool object after every later op, alias scan at creation; copy() must reproduce the full array incl. ghost cells and behave equally in a shadow solve; a failing *eval must leave its operands editable. A stratified batch covers {cell,face} x every operator / reflected operator / *eval arity / copy x operand kinds x all 9 grid classes (1 098 cells, all of them in every quick run), each followed by later edits of result and operands. Exploration over expression trees and later-modification histories."),
  "C15": ("DESIGN.md 3 (I1, I7, I8), 4 C15",
-   "Every public builder and solver runs inside shared-object histories; byte snapshots of the whole pool around every call (frame condition), rebuild of recorded calls must be bit-identical, event-log digests must agree across interpreters and hash seeds, alias scan of every returned object against mesh/input storage, in-place scribbles on returned objects must leave everything else unchanged, canary meshes monitor process-global state; builders may not even refresh derived state (ghost cells, cached boundary term) of their arguments. A stratified batch runs every public builder x all 9 grid classes (207 cells, all in every quick run: build, rebuild, scribble, rebuild, reuse in three solves, edit inputs, build again). Exploration."),
+   "Every public builder and solver runs inside shared-object histories; byte snapshots of the whole pool around every call (frame condition), rebuild of recorded calls must be bit-identical, recorded op lists re-executed in four fresh interpreters under different hash seeds must give identical per-event digests (part of every run of the check), alias scan of every returned object against mesh/input storage, in-place scribbles on returned objects must leave everything else unchanged, canary meshes monitor process-global state; builders may not even refresh derived state (ghost cells, cached boundary term) of their arguments. A stratified batch runs every public builder x all 9 grid classes (207 cells, all in every quick run: build, rebuild, scribble, rebuild, reuse in three solves, edit inputs, build again). Exploration."),
  "C03": ("DESIGN.md 3 (I4), 4 C03",
    "History clause decided by simulation: after each of the four ghost-recomputing operations at any point of any edit history the target's ghost layer satisfies the *latest* (a,b,c)/periodic flags (formula written independently of boundary.py incl. 1/r and 1/(r sin theta)), wraps exactly on periodic axes and only there, plot profile edges are face averages and the solver's boundary rows give c on the full array. After apply_BCs (also as the documented remedy for edits the tracking cannot see) a shadow solve checks the solver rows too; (a,b,c) x non-zero factor (scalar or per face, either sign) must leave fresh and historical solutions unchanged. A stratified batch covers class x periodic pattern per axis {none, low flag, high flag, both} x {Dirichlet, Neumann, Robin} per side: all 1 998 cells of the 1-D/2-D classes in every quick run, the 69 984 3-D cells sampled (quick) / complete (thorough). Spacing and coefficient values are sampled."),
  "C04": ("DESIGN.md 3 (I5), 4 C04",
